@@ -339,6 +339,19 @@ func (p *Program) codeFor(spec *ssa.Function) *ssa.Function {
 	return p.codeIndex[want]
 }
 
+// codeByNormKey: repository function by key modulo pointer receiver.
+func (p *Program) codeByNormKey(key string) *ssa.Function {
+	if p.codeIndex == nil {
+		p.codeIndex = map[string]*ssa.Function{}
+		for _, f := range p.Funcs {
+			if f.Parent() == nil && f.Synthetic == "" {
+				p.codeIndex[normKey(funcKey(f))] = f
+			}
+		}
+	}
+	return p.codeIndex[normKey(key)]
+}
+
 // sameInterface: identical parameter and result types (receivers compared modulo pointer).
 func sameInterface(a, b *ssa.Function) bool {
 	sa, sb := a.Signature, b.Signature
